@@ -9,8 +9,9 @@
 (*        did: ok / exception family / consecutive_failures_count.         *)
 (*        The counter is the state machine                                 *)
 (*            fails' = 0 after S, fails + 1 after F                        *)
-(*        (a refusal is an answer of the inverter: the statement does not  *)
-(*        say whether it resets the streak, both readings are accepted).   *)
+(*        (a refusal is not a success, so it never resets the streak; the  *)
+(*        statement does not say whether it counts as a failed request,    *)
+(*        both readings are accepted).                                     *)
 (* call   one public call under some network fault / odd identification    *)
 (*        payload: it may only end ok or with an InverterError.            *)
 (* entry  an entry point (connect / discover / search_inverters) on a      *)
@@ -28,12 +29,13 @@ N == Len(Cases)
 Family(c) == IF c.ok \/ c.fam THEN {} ELSE {"C09.Family:" \o c.exc}
 
 RECURSIVE Counter(_, _, _, _)
-\* hi = failures since the last success; lo = failures since the last success or refusal
+\* lo = failed requests since the last success; hi = failed or refused requests since the last success (the statement
+\* does not say whether a refusal counts as a failed request; it certainly is not a success, so it never resets)
 Counter(h, k, hi, lo) ==
     IF k > Len(h) THEN {}
     ELSE LET c == h[k] IN
          CASE c.kind = "S" -> (IF c.ok THEN {} ELSE {"C09.UnexpectedFailure"}) \cup Counter(h, k + 1, 0, 0)
-           [] c.kind = "R" -> (IF ~c.ok /\ c.rejected THEN {} ELSE {"C09.RejectedKind"}) \cup Family(c) \cup Counter(h, k + 1, hi, 0)
+           [] c.kind = "R" -> (IF ~c.ok /\ c.rejected THEN {} ELSE {"C09.RejectedKind"}) \cup Family(c) \cup Counter(h, k + 1, hi + 1, lo)
            [] c.kind = "F" -> (IF ~c.ok /\ c.failed THEN {} ELSE {"C09.FailedKind"}) \cup Family(c)
                               \cup (IF c.failed /\ (c.cfc < lo + 1 \/ c.cfc > hi + 1) THEN {"C09.Counter"} ELSE {})
                               \cup Counter(h, k + 1, hi + 1, lo + 1)
@@ -41,19 +43,21 @@ Counter(h, k, hi, lo) ==
 JudgeHist(c) == Counter(c.hist, 1, 0, 0)
 JudgeCall(c) == Family(c) \cup (IF c.unhandled THEN {"C09.NoUnhandled"} ELSE {})
 
-\* maximal runs of identical transmissions
+\* maximal runs of identical transmissions; a run is silent when none of its transmissions was answered
 RECURSIVE Runs(_, _)
-Runs(s, k) ==          \* s: sequence of [t, f]; result: sequence of sequences of times
+Runs(s, k) ==          \* s: sequence of [t, f, a]; result: sequence of [ts |-> times, silent |-> BOOLEAN]
     IF k > Len(s) THEN <<>>
     ELSE LET same == {j \in k..Len(s) : \A i \in k..j : s[i].f = s[k].f}
              e == CHOOSE j \in same : \A x \in same : x <= j
-         IN <<[i \in 1..(e - k + 1) |-> s[k + i - 1].t]>> \o Runs(s, e + 1)
+         IN <<[ts |-> [i \in 1..(e - k + 1) |-> s[k + i - 1].t], silent |-> \A i \in k..e : ~s[i].a]>> \o Runs(s, e + 1)
 
 JudgeEntry(c) ==
-    LET rs == Runs(c.sends, 1) IN
-    (IF \A i \in 1..Len(rs) : Len(rs[i]) = c.retries + 1 THEN {} ELSE {"C05.EntryRetries"})
-    \cup (IF \A i \in 1..Len(rs) : \A j \in 1..(Len(rs[i]) - 1) : rs[i][j + 1] - rs[i][j] = c.T THEN {} ELSE {"C05.EntryTimeout"})
-    \cup (IF Len(rs) > 0 /\ c.endT # rs[Len(rs)][Len(rs[Len(rs)])] + c.T THEN {"C05.EntryTimeout"} ELSE {})
+    LET rs == Runs(c.sends, 1)
+        sil == {i \in 1..Len(rs) : rs[i].silent} IN
+    (IF \A i \in sil : Len(rs[i].ts) = c.retries + 1 THEN {} ELSE {"C05.EntryRetries"})
+    \cup (IF \A i \in sil : \A j \in 1..(Len(rs[i].ts) - 1) : rs[i].ts[j + 1] - rs[i].ts[j] = c.T THEN {} ELSE {"C05.EntryTimeout"})
+    \cup (IF Len(rs) > 0 /\ rs[Len(rs)].silent /\ c.endT # rs[Len(rs)].ts[Len(rs[Len(rs)].ts)] + c.T
+          THEN {"C05.EntryTimeout"} ELSE {})
     \cup (IF Len(rs) = 0 THEN {"C05.EntryRetries"} ELSE {})
     \cup Family(c)
 
